@@ -59,6 +59,7 @@ class Opts:
         self.allow_split = True
         self.allow_param_split = True
         self.allow_rebalance = True
+        self.rebalance_prob = 0.4
         self.allow_post_flows = True
         self.allow_requests = True
         self.allow_computed = True
@@ -68,6 +69,7 @@ class Opts:
         self.positive = True          # non-negative rates everywhere (C18)
         self.max_steps = 5
         self.unit_times = False
+        self.negative_start_bias = 0.0   # probability of forcing a time span that starts below zero and contains 0
         self.small_dt = False         # dt in {1/8, 1/16}: explicit stages stay inside the non-negative orthant
         self.n_requests = 5
         self.force_infection = False
@@ -205,6 +207,10 @@ class Gen:
             if o.small_dt:
                 self.dt = r.choice([Fr(1, 8), Fr(1, 16)])
         self.nsteps = r.randint(2, o.max_steps)
+        if not o.unit_times and r.random() < o.negative_start_bias:
+            self.dt = r.choice([Fr(1), Fr(1, 2), Fr(2)]) if not o.small_dt else self.dt
+            k = r.randint(1, max(1, self.nsteps - 1))
+            self.t0 = -k * self.dt
         self.t1 = self.t0 + self.nsteps * self.dt
         ops.append({"op": "model", "t0": q(self.t0), "t1": q(self.t1), "dt": q(self.dt), "comps": names, "inf": inf})
         self.comps = [(n, []) for n in names]
@@ -245,9 +251,11 @@ class Gen:
         for _ in range(nflows - n_pre):
             f = self.gen_flow(post=True)
             if f: ops.append(f)
-        if o.allow_rebalance and self.strats and r.random() < 0.4:
-            rb = self.gen_rebalance()
-            if rb: ops.append(rb)
+        if o.allow_rebalance and self.strats:
+            for _ in range(2):
+                if r.random() < o.rebalance_prob:
+                    rb = self.gen_rebalance()
+                    if rb: ops.append(rb)
         if o.allow_array_pop and r.random() < 0.3:
             ops.append({"op": "init_pop_array", "arr": [self.static_expr(ARR_POOL) for _ in self.comps]})
             self.count("array_pop")
@@ -296,6 +304,9 @@ class Gen:
         elif kind in ("transition", "absolute"):
             src = r.choice(names)
             dst = r.choice([n for n in names if n != src] or names)
+            if kind == "transition" and r.random() < 0.08:
+                dst = src          # a self-flow is legal (e.g. the diagonal of a mobility matrix) and must cancel
+                self.count("flow:self_loop")
             rate = self.rate_expr(small=(kind == "transition"))
             if kind == "absolute":
                 rate = self.rate_expr(small=False)
@@ -339,7 +350,14 @@ class Gen:
         fs = self.random_filter(src)
         keys_dst = set(k for c in self.comps if c[0] == dst for k, _ in c[1])
         keys_src = set(k for c in self.comps if c[0] == src for k, _ in c[1])
-        if keys_dst == keys_src:
+        if keys_dst == keys_src and keys_src and self.r.random() < 0.3:
+            # a flow between DIFFERENT strata (migration-like): full filters on both ends give a 1:1 pairing
+            s = self.r.choice([c for c in self.comps if c[0] == src])
+            d = self.r.choice([c for c in self.comps if c[0] == dst])
+            op["src_strata"] = list(s[1])
+            op["dst_strata"] = list(d[1])
+            self.count("flow:cross_strata")
+        elif keys_dst == keys_src:
             op["src_strata"] = fs
             op["dst_strata"] = list(fs)
         else:
@@ -476,8 +494,10 @@ class Gen:
         props = r.choice(SPLITS[len(strata)])
         others = [t for t in self.strats if t["name"] != s["name"]]
         flt = []
-        if others and r.random() < 0.6:
-            t = r.choice(others)
+        if others and r.random() < 0.7:
+            # prefer a filter on a PARTIAL stratification: compartments that do not carry its key must not match
+            partial = [t for t in others if sorted(t["comps"]) != sorted(self.orig)]
+            t = r.choice(partial) if partial and r.random() < 0.7 else r.choice(others)
             ts = sorted(t["strata"], key=int) if t["kind"] == "age" else t["strata"]
             flt = [[t["name"], r.choice(ts)]]
         self.count("rebalance")
@@ -519,7 +539,10 @@ class Gen:
             elif k == "cum":
                 op["source"] = r.choice(names)
                 z = r.random()
-                if z < 0.4: pass
+                zero_on_grid = self.t0 < 0 and (-self.t0 / self.dt).denominator == 1 and (-self.t0 / self.dt) <= self.nsteps
+                if zero_on_grid and z < 0.5:
+                    op["start"] = "0/1"; self.count("req:cum:start0")
+                elif z < 0.4: pass
                 elif z < 0.6: op["start"] = q(self.t0)
                 else: op["start"] = q(self.t0 + r.randint(1, self.nsteps) * self.dt)
             elif k == "func":
@@ -536,6 +559,12 @@ class Gen:
             self.count("req:" + k + (":raw" if op.get("raw") else ""))
             reqs.append(op)
             names.append(nm)
+            if k == "flow" and (op.get("src_strata") or op.get("dst_strata")) and r.random() < 0.6:
+                f = [x for x in self.flows if x[0] == op["flow"]][0]
+                if f[2] not in (None, "*") and f[3] is not None:
+                    twin = dict(op, name=nm + "t")
+                    twin["src_strata"], twin["dst_strata"] = list(op.get("dst_strata") or []), list(op.get("src_strata") or [])
+                    reqs.append(twin); names.append(nm + "t"); self.count("req:flow:twin")
         # computed value outputs
         return reqs
 
